@@ -17,7 +17,7 @@ class C16(BaseCheck):
           'histories by 1-6 holders on a real RefCountedSink vs. a counter model (underlying Open exactly on '
           '0->1, Close exactly on 1->0, surplus closes ignored, same open result for all). shared: random '
           'CreateSink/drop histories on a real SharedSinkProvider (same key => same object while a holder '
-          'lives; different key => different object). non-trivial = at least 3 ops judged; distinct by '
+          'lives; different key => different object). Singleton histories also have further holders that open right behind the first one (some of them gone again before the connection is even being created) and requesters whose greenlet is killed while the connection they made the pool create is still opening. non-trivial = at least 3 ops judged; distinct by '
           '(kind, op classes, sizes)')
   ANCHORS = ('scales.pool.singleton:SingletonPoolSink._Get', 'scales.sink:RefCountedSink.Open',
              'scales.sink:RefCountedSink.Close', 'scales.sink:SharedSinkProvider.CreateSink')
@@ -25,7 +25,7 @@ class C16(BaseCheck):
   REQUIRED_CLASSES = ('singleton', 'refcount', 'shared', 'concurrent-first-requests', 'replaced-after-failure',
                       'surplus-close', 'reopen-after-last-close', 'same-key', 'different-key',
                       'underlying-closed-while-held', 'underlying-state-changes',
-                      'requester-abandoned-while-opening')
+                      'requester-abandoned-while-opening', 'several-holders', 'holder-gone-before-connect')
   QUICK_CASES = 1500
   THOROUGH_CASES = 120000
   QUICK_WALL = 180
@@ -172,8 +172,20 @@ class C16(BaseCheck):
       return r
 
     use_pool_open = rng.random() < 0.5
+    extra_holders = 0
     if use_pool_open:
       pool.Open()
+      if rng.random() < 0.4:
+        # further holders of the same pool: they open right behind the first one (the connection is
+        # not even being created yet) and some of them are gone again at once
+        classes.add('several-holders')
+        for _ in range(rng.choice([1, 2])):
+          pool.Open()
+          extra_holders += 1
+          if rng.random() < 0.5:
+            pool.Close()
+            extra_holders -= 1
+            classes.add('holder-gone-before-connect')
     nops = rng.choice([10, 30, 60, 120])
     first_burst = rng.choice([1, 2, 5])
 
@@ -262,6 +274,16 @@ class C16(BaseCheck):
     for r in reqs:
       if len(r['deliveries']) > 1:
         out.violate('singleton:double-completion', 'request %d completed %d times' % (r['id'], len(r['deliveries'])), {})
+    for _ in range(extra_holders):
+      live_before_holder_close = bool(live())
+      pool.Close()
+      env.settle()
+      out.obligations += 1
+      if reqs and not live() and not any(c.failed for c in conns[-1:]) and conns and 'close-then-reopen' not in classes \
+          and live_before_holder_close:
+        out.violate('singleton:closed-under-a-holder', 'the connection was closed although %d holder(s) had not closed the '
+                    'pool yet' % 1, {})
+        break
     pool.Close()
     env.advance(0.2)
     out.obligations += 1
